@@ -175,6 +175,11 @@ func advStrings(maxLen int) [][]byte {
 }
 
 func checkC07(r *Result, rng *rand.Rand, thorough bool) {
+	traces, doneTraces := collectTraces(200)
+	defer func() {
+		doneTraces()
+		compareSrv(r, "srv", *traces)
+	}()
 	maxLen := 3
 	if thorough {
 		maxLen = 4
